@@ -449,5 +449,5 @@ def run_shard(acc, shard, nshards, seed, tier):
         return dict(key=('s', spec['cfg'], spec['routes'], spec['scripts'], spec['candles'], spec['fast']), nontrivial=nt,
                     classes=['session:' + f for f in sorted(flags)] + ['session:' + ('fast' if spec['fast'] else 'step')], violations=vios, sub='session-replay',
                     sample=dict(cfg=spec['cfg'], routes=spec['routes'], fast=spec['fast'], minutes=spec['n'], orders=len(r['orders'])) if nt else None)
-    runner.hyp_search(acc, sess, chk_s, 12 if tier == 'quick' else 800, seed + 11, tier, known=known, shrink_calls=15, max_shrink_sigs=1,
+    runner.hyp_search(acc, sess, chk_s, 24 if tier == 'quick' else 800, seed + 11, tier, known=known, shrink_calls=15, max_shrink_sigs=1,
                       describe=lambda spec: dict(kind='session', spec=spec))
